@@ -1121,7 +1121,7 @@ def _juncts(e, op):
 def _const_pair(e):
     """AND / OR with two comparisons of the same column against literals (listed findings: simplify folds a
     contradictory AND pair to FALSE, losing NULL; and merges an OR pair to the wrong bound)"""
-    if not (e[0] == "bin" and e[1] in ("AND", "OR")):
+    if not (e[0] == "bin" and e[1] == "AND"):   # the OR case was repaired (KNOWN_FINDINGS.txt, fixed: e1bcff0)
         return False
     names = [n for n in (_cmp_col_const(c) for c in _juncts(e, e[1])) if n]
     return len(names) != len(set(names))
